@@ -832,6 +832,11 @@ UNITS = {
         file='jedi/api/refactoring/__init__.py',
         consts=['EXPRESSION_PARTS', '_INLINE_NEEDS_PARENTHESES'],
         funcs=[]),
+    # C19: the fixed ignore list and the two search limits
+    'C19_consts': dict(
+        file='jedi/inference/references.py',
+        consts=['_IGNORE_FOLDERS', '_OPENED_FILE_LIMIT', '_PARSED_FILE_LIMIT'],
+        funcs=[]),
     # C20: sys.path de-duplication
     'C20_dedupe': dict(
         file='jedi/api/project.py',
